@@ -405,6 +405,25 @@ pub fn read_wig(c: &Case, bytes: Vec<u8>, out: &mut String) {
                         }
                     }
                 },
+                "stats" => {
+                    let entry = BedEntry { start: s, end: e, rest: String::new() };
+                    match bigtools::utils::misc::stats_for_bed_item(&q[2], entry, rd) {
+                        Err(e) => writeln!(out, "A {} err {}", $qi, read_err_class(&e)).unwrap(),
+                        Ok(st) => writeln!(
+                            out,
+                            "A {} ok {} {} {} {} {} | {} {}",
+                            $qi,
+                            st.size,
+                            st.bases,
+                            fnum(st.sum),
+                            fnum(st.min),
+                            fnum(st.max),
+                            format!("{:016x}", st.mean0.to_bits()),
+                            format!("{:016x}", st.mean.to_bits())
+                        )
+                        .unwrap(),
+                    }
+                }
                 "vals" => match rd.values(&q[2], s, e) {
                     Err(e) => writeln!(out, "A {} err {}", $qi, read_err_class(&e)).unwrap(),
                     Ok(v) => writeln!(out, "A {} ok{}", $qi, rle_values(&v)).unwrap(),
@@ -421,7 +440,10 @@ pub fn read_wig(c: &Case, bytes: Vec<u8>, out: &mut String) {
                         q[5].parse().unwrap()
                     };
                     match rd.get_zoom_interval(&q[2], s, e, lvl) {
-                        Err(_) => writeln!(out, "A {} err Zoom", $qi).unwrap(),
+                        Err(e) => writeln!(out, "A {} err Zoom{}", $qi, {
+                            let d = format!("{:?}", e);
+                            if d.starts_with("ReductionLevelNotFound") { String::new() } else { format!(":{}", d.split('(').next().unwrap()) }
+                        }).unwrap(),
                         Ok(it) => {
                             let mut line = format!("A {} ok", $qi);
                             for z in it {
@@ -574,7 +596,10 @@ pub fn read_bed(c: &Case, bytes: Vec<u8>, out: &mut String) {
                         q[5].parse().unwrap()
                     };
                     match rd.get_zoom_interval(&q[2], s, e, lvl) {
-                        Err(_) => writeln!(out, "A {} err Zoom", $qi).unwrap(),
+                        Err(e) => writeln!(out, "A {} err Zoom{}", $qi, {
+                            let d = format!("{:?}", e);
+                            if d.starts_with("ReductionLevelNotFound") { String::new() } else { format!(":{}", d.split('(').next().unwrap()) }
+                        }).unwrap(),
                         Ok(it) => {
                             let mut line = format!("A {} ok", $qi);
                             for z in it {
@@ -672,8 +697,11 @@ pub fn run_write_case(c: &Case, outdir: &Path, out: &mut String) {
 
 /// `readwig` / `readbed` case: the file is given (`FILE <path>`), only read.
 pub fn run_read_case(c: &Case, out: &mut String) {
-    let path = &c.records("FILE").next().expect("FILE line")[1];
-    let bytes = std::fs::read(path).unwrap();
+    // the file travels inside the case (`FILEHEX <hex>`), or is named by `FILE <path>`
+    let bytes = match c.records("FILEHEX").next() {
+        Some(l) => unhex(&l[1]),
+        None => std::fs::read(&c.records("FILE").next().expect("FILE line")[1]).unwrap(),
+    };
     if c.kind == "readwig" {
         read_wig(c, bytes, out);
     } else {
